@@ -162,16 +162,39 @@ func runC08(c *Ctx) {
 				nOK++
 				// the error handed back is nil only when shortest-form holds: err is φ(nil, ErrUnnecessaryLeadingBytes) keyed by the comparison
 				et := ff.Term(r.Results[2])
+				// every way this exit can hand back a nil error is under the shortest-form
+				// equality: a constant nil error → the facts at the return; a φ of nil and an
+				// error → the facts on the φ edge that carries nil
+				isShort := func(fs []Fact) bool {
+					for _, f := range fs {
+						if f.IsCmp && f.Op.String() == "==" && strings.Contains(f.L.String(), "varintShortestSize") {
+							return true
+						}
+					}
+					return false
+				}
 				okShort := false
-				if phi, ok := r.Results[2].(*ssa.Phi); ok {
-					for i, e := range phi.Edges {
+				switch ev := r.Results[2].(type) {
+				case *ssa.Phi:
+					okShort = true
+					nNil := 0
+					for i, e := range ev.Edges {
 						if cst, isC := e.(*ssa.Const); isC && cst.Value == nil {
-							for _, f := range ff.FactsOnEdge(phi.Block().Preds[i], phi.Block()) {
-								if f.IsCmp && f.Op.String() == "==" && strings.Contains(f.L.String(), "varintShortestSize") {
-									okShort = true
-								}
+							nNil++
+							if !isShort(ff.FactsOnEdge(ev.Block().Preds[i], ev.Block())) {
+								okShort = false
 							}
 						}
+					}
+					okShort = okShort && nNil > 0
+				case *ssa.Const:
+					if ev.Value == nil {
+						okShort = isShort(ff.FactsAt(r.Block()))
+					}
+				default:
+					if classifyReturn(ff, r) == RetErr {
+						nOK--
+						continue // an exit that reports an error carries no obligation
 					}
 				}
 				c.Require("C08.P1 shortest-varint", FuncKey(ru)+": success exit", p.InstrPos(r), "a nil error is returned only when varintShortestSize(value) == bytes consumed", okShort, "err: "+et.String())
